@@ -52,7 +52,7 @@ for rnd in sorted({m["round"] for m in metas.values()}):
     c = [m for m in v if caught(m)]
     o = [m for m in v if own(m)]
     first_missed = [m for m in v if m["seed_id"] in H and "missed" in H[m["seed_id"]]]
-    other_only = [m for m in v if m["seed_id"] in H and "missed" not in H[m["seed_id"]] and "not seen" in H[m["seed_id"]]]
+    other_only = [m for m in v if m["seed_id"] in H and "missed" not in H[m["seed_id"]] and ("not seen" in H[m["seed_id"]] or ", not by" in H[m["seed_id"]])]
     w(f"**Round {rnd}**: {len(ms)} changes produced, {len(v)} valid at HEAD, {len(c)} caught in the quick tier at `VERIF_SEED=1` "
       f"({len(o)} of them by the check of their own property, the others by the check of the property they actually break), "
       f"{len(first_missed)} were missed by every check run on them as the checks stood when the change was produced (and {len(other_only)} "
